@@ -8,7 +8,7 @@ import traceback
 
 def perturb_globals(idx):
     """Every case runs under another state of the interpreter-wide settings a user is free to change: Python's and numpy's
-    global random generators, numpy's print options.  The package's results and the text it writes must not depend on them
+    global random generators, numpy's print options (also the legacy modes), the decimal context.  The package's results and the text it writes must not depend on them
     (and a replay of a case must not either: the perturbation is a function of the case index only)."""
     if os.environ.get("VERIF_PERTURB_GLOBALS", "1") != "1":
         return
@@ -18,7 +18,11 @@ def perturb_globals(idx):
     random.seed(k)
     np.random.seed(k % (2 ** 32 - 1))
     np.set_printoptions(precision=[8, 2, 17, 4][k % 4], threshold=[1000, 3, 10 ** 6][k % 3], suppress=bool(k & 8),
-                        linewidth=[75, 20, 400][(k >> 4) % 3], floatmode=["maxprec", "fixed", "unique"][(k >> 6) % 3])
+                        linewidth=[75, 20, 400][(k >> 4) % 3], floatmode=["maxprec", "fixed", "unique"][(k >> 6) % 3],
+                        legacy=[False, False, "1.13", "1.25"][(k >> 8) % 4])
+    import decimal
+    decimal.getcontext().prec = [28, 6, 50, 3][(k >> 10) % 4]
+    decimal.getcontext().rounding = [decimal.ROUND_HALF_EVEN, decimal.ROUND_DOWN, decimal.ROUND_CEILING][(k >> 12) % 3]
 
 
 def main():
